@@ -5,7 +5,7 @@ if ! git -C /repo diff --quiet; then echo "/repo has local changes"; exit 2; fi
 rm -f replays/*.json
 tools/run_all.sh quick | tee /tmp/finalize.log | cut -c1-110
 if grep -q VIOLATION /tmp/finalize.log; then echo "ALARM on the unchanged tree - not committing"; exit 1; fi
-python3 tools/mkmanifest.py > /dev/null && python3 tools/mk_appendix_d.py > /dev/null
+python3 tools/mkmanifest.py > /dev/null && python3 tools/mk_appendix_d.py > /dev/null && python3 tools/mk_appendix_c.py > /dev/null
 python3-vt - <<'PY' || exit 1
 import json, jsonschema, glob
 s = json.load(open('/root/.vp/EVIDENCE.schema.json'))
